@@ -27,6 +27,13 @@ pub enum R {
 fn ser(a: &dyn Aml) -> Vec<u8> {
     let mut v = Vec::new();
     a.to_aml_bytes(&mut v);
+    // the history principle for terms: serialising is an observation, and an object observed twice is the same object
+    // (a cache filled by the first pass is state); a difference is raised as a panic, which every caller reports
+    let mut again = Vec::new();
+    a.to_aml_bytes(&mut again);
+    if again != v {
+        panic!("SECOND USE: the same object serialised a second time gives different bytes ({} then {} bytes)", v.len(), again.len());
+    }
     v
 }
 fn cache(i: u8) -> AddressSpaceCacheable {
